@@ -203,10 +203,20 @@ Definition drop_all (s : sys) : sys :=
   set_db_writes s (mkLsm [] [] (map (fun _ => []) (l_levels (s_db s)))) [].
 
 (* Close + Open: Close hands a non-empty memtable to the flusher (new L0 table `id`, 0 when
-   the memtable was empty); Open rebuilds the oracle at MaxVersion + 1 (normal mode) and
-   forgets every transaction *)
+   the memtable was empty); Open rebuilds the oracle at MaxVersion + 1 (normal mode), forgets
+   every transaction, and level_handler.go initTables orders level 0 by table id (the other
+   levels by smallest key, which they already are) *)
+Fixpoint ins_by_id (t : table) (l : list table) : list table :=
+  match l with
+  | [] => [t]
+  | x :: r => if t_id t <=? t_id x then t :: l else x :: ins_by_id t r
+  end.
+Definition sort_by_id (l : list table) : list table := fold_right ins_by_id [] l.
+
 Definition reopen (s : sys) (id : N) : sys :=
-  let d := flush_oldest (rotate (s_db s)) id in
+  let d0 := flush_oldest (rotate (s_db s)) id in
+  let d := mkLsm (l_mt d0) (l_imm d0)
+                 (match l_levels d0 with [] => [] | l0 :: r => sort_by_id l0 :: r end) in
   mkSys d (if s_managed s then s_next s else max_version d + 1) [] [] (s_managed s) (s_detect s)
         (s_nkeep s) (if s_managed s then 0 else s_discard s) (s_writes s) (s_now s).
 
